@@ -34,7 +34,7 @@ ASSUMPTIONS = [
 CALLS = ["optimize", "optimize_sense", "slim", "fva", "fva_loopless", "blocked", "essential_genes", "essential_rxns", "pfba", "moma", "room", "room_linear",
          "geometric", "loopless_solution", "single_gene", "single_rxn", "double_gene", "double_rxn", "single_rxn_moma", "single_gene_room",
          "envelope", "assess", "assess_component", "assess_pp", "minimal_medium", "minimal_medium_mip", "gapfill", "fastcc", "sample",
-         "sampler", "summary_model", "summary_met", "summary_rxn"]
+         "sampler", "summary_model", "summary_met", "summary_rxn", "~edit", "~edit", "~edit", "blocked_after_edit", "blocked_after_edit"]
 
 
 BIG_M = {"room", "room_linear", "single_gene_room", "minimal_medium_mip", "gapfill"}
@@ -108,6 +108,32 @@ def run_call(model, c, case):
         return None  # the loopless heuristic depends on the solver's vertex: not uniquely defined
     if name == "blocked":
         return sorted(fa.find_blocked_reactions(model, open_exchanges=c["flag"], processes=p))
+    if name == "blocked_after_edit":
+        # an optimisation, then a knock-out of a reaction that carried flux (inside a block of the user, so the model is
+        # as before afterwards), then the blocked search: it must answer for the model as it stands, i.e. like the same
+        # search on a fresh copy of that state, whose solver holds no earlier solution (since seeded change C13-6)
+        sol = model.optimize()
+        if sol.status != "optimal":
+            return None
+        carrying = [x for x in rx if abs(sol.fluxes[x.id]) > 1e-6]
+        if not carrying:
+            return None
+        victim = carrying[c["i"] % len(carrying)]
+        with model:
+            victim.knock_out()
+            try:
+                got = sorted(fa.find_blocked_reactions(model, processes=p))
+            except Exception:  # noqa: BLE001 - refusals are judged by the plain "blocked" call
+                return None
+            fresh = model.copy()
+        try:
+            want = sorted(fa.find_blocked_reactions(fresh, processes=1))
+        except Exception:  # noqa: BLE001
+            return None
+        if got != want:
+            _v("blocked:stale-solution", f"after optimize() and {victim.id}.knock_out() the blocked search returns {got}; the same search on a fresh copy of "
+                                         f"that very state returns {want}")
+        return None  # which reaction is knocked out depends on the vertex of the first optimisation: nothing to compare between calls
     if name == "essential_genes":
         return sorted(g.id for g in fa.find_essential_genes(model, processes=p))
     if name == "essential_rxns":
@@ -280,6 +306,14 @@ def check_case(case, ctx):
     try:
         for c in case["calls"]:
             name = c["name"]
+            if name == "~edit":
+                # not an analysis: the user changes a bound between two analyses (closes a reaction, or restricts it),
+                # so that whatever an earlier call left in the solver is stale for the next one (since seeded change C13-6)
+                if len(model.reactions):
+                    r = model.reactions[c["i"] % len(model.reactions)]
+                    r.bounds = (0, 0) if c["flag"] else (max(r.lower_bound, -1), min(r.upper_bound, 1)) if r.lower_bound <= 1 and r.upper_bound >= -1 else r.bounds
+                    classes.append("~bound-edit-between-analyses")
+                continue
             before = observe.snapshot(model)
             res1, exc1 = None, None
             try:
